@@ -99,11 +99,12 @@ pub struct World<K: Kind> {
     pub maps: Vec<PrefixMap<K::P, V>>,
     pub sets: Vec<PrefixSet<K::P>>,
     pred_log: Vec<(EP, u64, bool)>,
+    copies: u64,
 }
 
 impl<K: Kind> World<K> {
     pub fn new() -> Self {
-        World { maps: Vec::new(), sets: Vec::new(), pred_log: Vec::new() }
+        World { maps: Vec::new(), sets: Vec::new(), pred_log: Vec::new(), copies: 0 }
     }
 }
 
@@ -1479,12 +1480,25 @@ impl<K: Kind> WorldApi for World<K> {
     fn copy(&mut self, from: Slot, to: Slot) {
         match (from, to) {
             (Slot::Map(i), Slot::Map(j)) => {
-                let c = self.maps[i].clone();
-                self.maps[j] = c;
+                self.copies += 1;
+                if self.copies % 2 == 0 {
+                    let c = self.maps[i].clone();
+                    self.maps[j] = c;
+                } else {
+                    // `clone_from` into whatever the destination held before
+                    let (src, dst) = two_mut(&mut self.maps, i, j);
+                    dst.clone_from(src);
+                }
             }
             (Slot::Set(i), Slot::Set(j)) => {
-                let c = self.sets[i].clone();
-                self.sets[j] = c;
+                self.copies += 1;
+                if self.copies % 2 == 0 {
+                    let c = self.sets[i].clone();
+                    self.sets[j] = c;
+                } else {
+                    let (src, dst) = two_mut(&mut self.sets, i, j);
+                    dst.clone_from(src);
+                }
             }
             _ => panic!("HARNESS:copy across slot types"),
         }
